@@ -86,5 +86,13 @@ Definition pinned_blocks : list (list feature * list (slot * kernel)) :=
 Definition selected_name (c : caps) (s : slot) : string :=
   match select c s with Some k => kernel_name k | None => "none"%string end.
 
-Definition caps_of_mask (bits : list bool) : caps :=
-  map snd (filter fst (combine bits all_features)).
+(** capability set from the has_* bits in the order of [detected_features] (the order of the struct fields) *)
+Definition caps_of_bits (bits : list bool) : caps :=
+  map snd (filter fst (combine bits detected_features)).
+
+Definition dispatch_names (bits : list bool) : list (string * string) :=
+  map (fun s => (slot_name s, selected_name (caps_of_bits bits) s)) all_slots.
+
+(** the same as indices into [all_slots] / [all_kernels] (what the extracted runner prints; [None] never occurs) *)
+Definition dispatch_indices (bits : list bool) : list (nat * option nat) :=
+  map (fun s => (slot_index s, option_map kernel_index (select (caps_of_bits bits) s))) all_slots.
